@@ -57,7 +57,7 @@ const DEFAULT_ANN: &str = "#[derive(AsnType, Debug, Clone, Decode, Encode, Parti
 
 pub fn all_opts() -> Vec<Opt> {
     let customs: [Vec<String>; 3] = [vec![], vec!["my::module::*".into()], vec!["path::to::Thing".into(), "other::{A, B}".into(), "core::fmt".into()]];
-    let annots: [Vec<String>; 6] = [
+    let annots: [Vec<String>; 7] = [
         vec![DEFAULT_ANN.into()],
         // extra derives
         vec!["#[derive(AsnType, Debug, Clone, Decode, Encode, PartialEq, Eq, Hash, PartialOrd, Ord)]".into()],
@@ -65,6 +65,8 @@ pub fn all_opts() -> Vec<Opt> {
         vec![DEFAULT_ANN.into(), "#[allow(dead_code)]".into(), "#[cfg_attr(feature = \"serde\", derive(serde::Serialize))]".into()],
         // derives listed twice, over two lines, one of them oddly spaced
         vec![DEFAULT_ANN.into(), "# [ derive ( Eq ,, Hash , PartialOrd , PartialOrd ) ]".into(), "#[derive(Hash, Copy)]".into()],
+        // user derives whose names merely contain the names of built-in ones
+        vec![DEFAULT_ANN.into(), "#[derive(CopyGetters, DeepCopy, PartialEqual, Hashable, Cloned, EqIsh)]".into()],
         // no derive line at all
         vec!["#[allow(clippy::all)]".into()],
         vec![],
